@@ -45,6 +45,10 @@ pub struct Ctl {
     pub rejected: AtomicU64,
     /// scheduler gates enabled
     pub sched: AtomicBool,
+    /// p > 0: every p-th gate (before / after a database operation) yields to the runtime once, so that
+    /// spawned tasks really interleave on a current_thread runtime (deterministically)
+    pub yield_every: AtomicU64,
+    pub gates: AtomicU64,
 }
 
 #[derive(Clone)]
@@ -67,6 +71,7 @@ impl VDb {
     pub fn reset_ops(&self) {
         self.ctl.ops.store(0, Ordering::SeqCst);
         self.ctl.faults_hit.store(0, Ordering::SeqCst);
+        self.ctl.gates.store(0, Ordering::SeqCst);
         self.ctl.log.lock().unwrap().clear();
     }
     pub fn set_fault(&self, at: Option<u64>, outage: bool) {
@@ -88,6 +93,11 @@ impl VDb {
     async fn gate(&self) {
         if self.ctl.sched.load(Ordering::Relaxed) {
             Gate { armed: true }.await
+        } else {
+            let p = self.ctl.yield_every.load(Ordering::Relaxed);
+            if p > 0 && self.ctl.gates.fetch_add(1, Ordering::Relaxed) % p == 0 {
+                tokio::task::yield_now().await;
+            }
         }
     }
     fn check_reject(&self, records: &[DbRecord]) -> Result<(), StorageError> {
